@@ -8,7 +8,7 @@ REPLAY = MODELS
 
 def run(report):
     q = report.tier == 'quick'
-    depths = {('exp', 'empty'): 3 if q else 4, ('exp', 'R1'): 2 if q else 3, ('exp', 'R2'): 1 if q else 2,
+    depths = {('exp', 'empty'): 3 if q else 4, ('exp', 'R1'): 2 if q else 3, ('exp', 'R2'): 1 if q else 2, ('exp', 'R4'): 1,
               ('sub', 'S0'): 3 if q else 5, ('sub', 'S1'): 2 if q else 3, ('sub', 'S2'): 2 if q else 3}
     groups = run_topo(report, MODELS, 'c09', depths)
     outs = {}
